@@ -51,5 +51,11 @@ CHECKS = {
                      "reported 200 by PROPPATCH / extended MKCOL / MKCALENDAR read back identically after every later operation and restart; no operation changed another collection's "
                      "properties or any member.",
                 note="Trusted: harness XML escaping/parsing; a set is successful iff its propstat is 200; ';' not generated for the git-config back end (as the property says)."),
+    "C16": dict(level="exploration", design="DESIGN.md section 4 C16",
+                technique="runtime monitoring: href harvester + dereferencer - every href emitted in PROPFIND/REPORT/POST/PROPPATCH/error bodies and href-valued properties is resolved per RFC 3986 and re-requested byte-for-byte; members identified by unique body tokens",
+                text="Held on the generated names and layouts: Depth 0 answered exactly the target, Depth 1 the target plus each direct member exactly once, collection hrefs ended in "
+                     "'/', and every harvested href, sent as emitted, returned the resource it was emitted for - for names with blanks, %, literal escapes, #, ?, ;, +, :, non-ASCII, under "
+                     "/, /dav/, /a/b/ and through both front ends.",
+                note="Trusted: urllib.parse.urljoin as RFC 3986 resolver; clients percent-encode reserved octets in member names; report completeness is left to C07/C11/C12/C17."),
 }
 NOT_APPLICABLE = {}
